@@ -126,7 +126,8 @@ pub async fn handle_naming_route(
             //请求 snapshot data
             let cluster_id = get_cluster_id(extend_info)?;
             log::info!("query snapshot from {}", &cluster_id);
-            let cmd = NodeManageRequest::QueryOwnerRange(ProcessRange::new(index, len));
+            let cmd =
+                NodeManageRequest::QueryOwnerRange(ProcessRange::new(index, len), cluster_id);
             let resp: NodeManageResponse = app.naming_inner_node_manage.send(cmd).await??;
             if let NodeManageResponse::OwnerRange(ranges) = resp {
                 let cmd = NamingCmd::QuerySnapshot(ranges);
